@@ -397,7 +397,7 @@ func runC08(c *Ctx) {
 				return false, false
 			})
 			g, _ := Guarded(fn.Blocks[0], s, pass, nil)
-			c.Check(srcOK && dstOK && g && len(pass) > 0, "R6", name+":pass-through", p.InstrPos(s), "non-pointer input is copied to the output from the reader that replays the sniffed bytes followed by the rest",
+			c.Check(srcOK && dstOK && g && nonVacuous(pass), "R6", name+":pass-through", p.InstrPos(s), "non-pointer input is copied to the output from the reader that replays the sniffed bytes followed by the rest",
 				"smudge does not pass non-pointer input through unchanged (wrong source/destination, or not restricted to the parse-failure branch)")
 		}
 	}
